@@ -36,6 +36,7 @@ func (d *denyAC) CanAppend(e accesscontroller.LogEntry, _ idp.Interface, _ acces
 }
 
 type replica struct {
+	tampered bool // holds invalid entry objects: only ever used as the SOURCE of joins
 	log    *ipfslog.IPFSLog
 	writer string
 	sort   string
@@ -60,7 +61,7 @@ type world struct {
 }
 
 type coreStats struct {
-	Histories, Ops, Appends, Joins, JoinNs, Loads, Iters, SetIds, TieHists, Forks, Exchanges, DeniedAppends, RejectedJoins, AclHists int
+	Histories, Ops, Appends, Joins, JoinNs, Loads, Iters, SetIds, TieHists, Forks, Exchanges, DeniedAppends, RejectedJoins, AclHists, Tampers int
 	OpHist                                                                                 map[string]int
 	DistinctNontrivial                                                                     int
 	shapes                                                                                 map[string]bool
@@ -185,6 +186,12 @@ func (w *world) doAppend(i int, pc int) {
 	l := w.reps[i].log
 	w.nextPl++
 	payload := []byte(fmt.Sprintf("p%d", w.nextPl))
+	switch w.r.Intn(14) {
+	case 0:
+		payload = []byte{} // empty payloads are legal entries
+	case 1:
+		payload = []byte{0xff, 0x00, byte(w.nextPl), 0xfe} // binary
+	}
 	var opts *iface.AppendOptions
 	if pc != 0 || w.r.Intn(2) == 0 {
 		opts = &iface.AppendOptions{PointerCount: pc}
@@ -256,6 +263,79 @@ func (w *world) doSetIdentity(i int, writer string) {
 	w.reps[i].writer = writer
 	fmt.Fprintf(w.out, "S %d %s\n", i, hexs(ident.PublicKey))
 	w.stats.SetIds++
+}
+
+// doTamper builds a new replica holding a copy of src's log in which some entries are replaced by
+// invalid variants (same hash, different content): no signature, corrupted signature, no key, another
+// writer's key, changed payload, or a different log id.  Joining from it exercises C06.
+func (w *world) doTamper(src int, oldest bool) {
+	s := w.reps[src]
+	ents := s.log.GetEntries().Slice()
+	if len(ents) == 0 {
+		return
+	}
+	k := 1 + w.r.Intn(3)
+	bad := map[string]string{}
+	for x := 0; x < k; x++ {
+		e := ents[w.r.Intn(len(ents))]
+		if oldest {
+			// one of the three oldest entries of the linearisation (deep in a long chain)
+			vs := s.log.Values().Slice()
+			e = vs[w.r.Intn(minI(3, len(vs)))]
+		}
+		bad[e.GetHash().String()] = []string{"nosig", "badsig", "nokey", "otherkey", "payload", "wrongid"}[w.r.Intn(6)]
+	}
+	om := entry.NewOrderedMap()
+	var invalid, wrongid []string
+	mod := map[string]iface.IPFSLogEntry{}
+	for _, e := range ents {
+		kind, ok := bad[e.GetHash().String()]
+		if !ok {
+			om.Set(e.GetHash().String(), e)
+			continue
+		}
+		c := e.Copy()
+		switch kind {
+		case "nosig":
+			c.SetSig(nil)
+		case "badsig":
+			sg := append([]byte(nil), c.GetSig()...)
+			sg[len(sg)/2] ^= 0x40
+			c.SetSig(sg)
+		case "nokey":
+			c.SetKey(nil)
+		case "otherkey":
+			c.SetKey(w.ids.Identity("intruder").PublicKey)
+		case "payload":
+			c.SetPayload(append(append([]byte(nil), c.GetPayload()...), '!'))
+		case "wrongid":
+			c.SetLogID("Z")
+		}
+		mod[e.GetHash().String()] = c
+		om.Set(e.GetHash().String(), c)
+		if kind == "wrongid" {
+			wrongid = append(wrongid, w.al(e))
+		} else {
+			invalid = append(invalid, w.al(e))
+		}
+		w.stats.OpHist["tamper:"+kind]++
+	}
+	var heads []iface.IPFSLogEntry
+	for _, h := range s.log.RawHeads().Slice() {
+		if m, ok := mod[h.GetHash().String()]; ok {
+			heads = append(heads, m)
+		} else {
+			heads = append(heads, h)
+		}
+	}
+	ident := w.ids.Identity(s.writer)
+	nl, err := ipfslog.NewLog(w.api, ident, &ipfslog.LogOptions{ID: s.id, Entries: om, Heads: heads, SortFn: sortFnOf(s.sort)})
+	if err != nil {
+		panic(err)
+	}
+	w.reps = append(w.reps, &replica{log: nl, writer: s.writer, sort: s.sort, id: s.id, tampered: true})
+	fmt.Fprintf(w.out, "T %d %d %s %s\n", len(w.reps)-1, src, lst(invalid), lst(wrongid))
+	w.stats.Tampers++
 }
 
 // doLoad builds a new replica from src with one of the four loaders.
@@ -512,9 +592,30 @@ func runCore(seed int64, nHist, nOps int, out *bufio.Writer, thorough bool) *cor
 			}
 			w.newReplica(id, wr, sk, deny)
 		}
+		if acl && r.Intn(3) == 0 {
+			// a long chain with an invalid entry near its root, merged in one go into an empty replica:
+			// more candidates in a single join than any worker pool size
+			src := r.Intn(len(w.reps))
+			cnt := 17 + r.Intn(24)
+			for k := 0; k < cnt; k++ {
+				w.doAppend(src, pcChoices[r.Intn(len(pcChoices))])
+				w.observe(src)
+			}
+			w.doTamper(src, true)
+			tam := len(w.reps) - 1
+			dst := w.newReplica(w.reps[src].id, fmt.Sprintf("w%d", len(w.reps)), sk, nil)
+			w.doJoin(dst, tam, -1)
+			w.observe(dst)
+			w.doJoin(dst, src, -1)
+			w.observe(dst)
+			stats.OpHist["bigTamperJoin"]++
+		}
 		for k := 0; k < ops; k++ {
 			n := len(w.reps)
 			i := r.Intn(n)
+			for w.reps[i].tampered {
+				i = r.Intn(n)
+			}
 			c := r.Intn(100)
 			switch {
 			case c < 45:
@@ -546,6 +647,10 @@ func runCore(seed int64, nHist, nOps int, out *bufio.Writer, thorough bool) *cor
 				w.doLoad(i, kind, nn, wr, conc)
 				stats.OpHist["load:"+kind]++
 				continue
+			case c < 94 && c >= 92 && acl && len(w.reps) < 9:
+				w.doTamper(i, false)
+				stats.OpHist["tamper"]++
+				continue
 			case c < 92 && (shared || acl):
 				if acl {
 					w.doSetIdentity(i, fmt.Sprintf("w%d", r.Intn(nRep)))
@@ -567,7 +672,7 @@ func runCore(seed int64, nHist, nOps int, out *bufio.Writer, thorough bool) *cor
 			pairs := [][2]int{}
 			for i := range w.reps {
 				for j := range w.reps {
-					if i != j {
+					if i != j && !w.reps[i].tampered {
 						pairs = append(pairs, [2]int{i, j})
 					}
 				}
